@@ -408,3 +408,240 @@ class AxiRun:
         header = dict(nb=nb, base=cfg["base"], rmw=bool(cfg["rmw"]), nwords=cfg["nwords"], wdepth=cfg["wdepth"], rdepth=cfg["rdepth"],
                       idw=cfg["idw"])
         return header, out
+
+
+# ------------------------------------------------------------------------------------------------ spec -> code (binding B3)
+# Behaviours of the design model specs/D_Axi2Native.tla (TLC -simulate) are turned into stimuli for the REAL bridge.  The
+# script only fixes *intentions* (when each burst/beat is first offered, the BREADY/RREADY/cmd.ready bit of every cycle, the
+# cycles in which the memory strobes a data phase); the drivers still obey the AXI rules by themselves (VALID held until the
+# real READY, a data phase only for an accepted command that is old enough), so a replay is legal traffic even if the code
+# and the model disagree on a cycle.  The real trace is judged by R_AxiMem like any other; the handshake times of the code are
+# additionally compared with the model's (lock-step statistics, never a verdict).
+import re as _re
+
+_VAR = _re.compile(r"^/\\ (\w+) = (.*)$")
+
+
+def parse_tlc_behaviour(path, wanted):
+    """parse a file written by `tlc -simulate file=...`: list of dicts {var: python value} for the wanted variables."""
+    states, cur, name = [], None, None
+    with open(path) as f:
+        for line in f:
+            line = line.rstrip("\n")
+            if line.startswith("STATE_"):
+                cur = {}
+                states.append(cur)
+                name = None
+                continue
+            if cur is None:
+                continue
+            m = _VAR.match(line)
+            if m:
+                name = m.group(1)
+                cur[name] = m.group(2)
+            elif name is not None and line.strip() and not line.startswith("\\*"):
+                cur[name] += " " + line.strip()
+    out = []
+    for st in states:
+        d = {}
+        for k in wanted:
+            v = st[k].strip()
+            if v in ("TRUE", "FALSE"):
+                d[k] = v == "TRUE"
+            elif _re.fullmatch(r"-?\d+", v):
+                d[k] = int(v)
+            elif v.startswith("<<") and _re.fullmatch(r"<<[-\d, ]*>>", v):
+                d[k] = [int(x) for x in v[2:-2].split(",") if x.strip()]
+            elif v.startswith("["):
+                d[k] = {m.group(1): m.group(2) == "TRUE" for m in _re.finditer(r"(\w+) \|-> (TRUE|FALSE)", v)}
+            else:
+                d[k] = v
+        out.append(d)
+    return out
+
+
+def script_from_behaviour(states):
+    """states[c] describes cycle c.  -> dict(wlen, rlen, aw_at[k], w_at[(k,i)], ar_at[k], bready[c], rready[c], cmdrdy[c], pulse[c], hs)"""
+    n = len(states)
+    wlen, rlen = states[0]["wlen"], states[0]["rlen"]
+    aw_at, w_at, ar_at = {}, {}, {}
+    hs = dict(AW=[], W=[], AR=[], B=[], R=[])
+    for c in range(n):
+        s = states[c]
+        if s["awv"] and s["awn"] not in aw_at:
+            aw_at[s["awn"]] = c
+        if s["wv"] and (s["wb"] - 1, s["wi"]) not in w_at:
+            w_at[(s["wb"] - 1, s["wi"])] = c
+        if s["arv"] and s["arn"] not in ar_at:
+            ar_at[s["arn"]] = c
+        if c + 1 < n:
+            t = states[c + 1]
+            if t["awn"] > s["awn"]:
+                hs["AW"].append(c)
+            if (t["wb"], t["wi"]) != (s["wb"], s["wi"]):
+                hs["W"].append(c)
+            if t["arn"] > s["arn"]:
+                hs["AR"].append(c)
+            if t["nbr"] > s["nbr"]:
+                hs["B"].append(c)
+            if t["nrr"] > s["nrr"]:
+                hs["R"].append(c)
+    io = [states[c + 1]["io"] if c + 1 < n else dict(cmdrdy=True, bready=True, rready=True, pulse=True) for c in range(n)]
+    return dict(wlen=wlen, rlen=rlen, aw_at=aw_at, w_at=w_at, ar_at=ar_at, n=n, hs=hs,
+                bready=[int(x["bready"]) for x in io], rready=[int(x["rready"]) for x in io],
+                cmdrdy=[int(x["cmdrdy"]) for x in io], pulse=[int(x["pulse"]) for x in io])
+
+
+class ScriptMem:
+    """native memory with the pulse semantics of idealmem.IdealMem, but cmd.ready and the data-phase strobes follow a script
+    (guarded: a strobe only for the oldest accepted command and not earlier than lmin cycles after its accept)."""
+
+    def __init__(self, port, cmdrdy, pulse, lmin=3, init=None):
+        self.port, self.cmdrdy, self.pulse, self.lmin = port, cmdrdy, pulse, lmin
+        self.nb = port.data_width // 8
+        self.mem = {}
+        self.initf = init or (lambda a: 0)
+        self.events = []
+        self.outstanding = 0
+        self.skipped = 0
+
+    def initword(self, a):
+        return self.initf(a)
+
+    def read(self, a):
+        return self.mem.get(a, self.initword(a))
+
+    def process(self):
+        port, q, pulse, ready, c = self.port, [], None, 0, 0
+        while True:
+            # observe cycle c - 1
+            if c > 0:
+                t = c - 1
+                if (yield port.cmd.valid) and ready:
+                    we, a = (yield port.cmd.we), (yield port.cmd.addr)
+                    self.events.append((t, 1, 0, dict(c="CMD", we=bool(we), a=a, t=t)))
+                    q.append([bool(we), a, t])
+                    self.outstanding += 1
+                if pulse is not None:
+                    we, a, _ = pulse
+                    if we:
+                        if (yield port.wdata.valid):
+                            d, m, old = (yield port.wdata.data), (yield port.wdata.we), self.read(a)
+                            for j in range(self.nb):
+                                if (m >> j) & 1:
+                                    old = (old & ~(0xff << (8 * j))) | (d & (0xff << (8 * j)))
+                            self.mem[a] = old
+                            self.events.append((t, 2, 0, dict(c="WDATA", d=tobytes(d, self.nb), m=[(m >> j) & 1 for j in range(self.nb)], t=t)))
+                        else:
+                            self.events.append((t, 2, 0, dict(c="WDROP", t=t)))
+                    else:
+                        if (yield port.rdata.ready):
+                            self.events.append((t, 3, 0, dict(c="RDATA", d=tobytes(pulse[3], self.nb), t=t)))
+                        else:
+                            self.events.append((t, 3, 0, dict(c="RDROP", t=t)))
+                    pulse = None
+                    self.outstanding -= 1
+            # drive cycle c
+            want = self.pulse[c] if c < len(self.pulse) else 1
+            if want and q and c - q[0][2] >= self.lmin:
+                pulse = q.pop(0)
+                if not pulse[0]:
+                    pulse = pulse + [self.read(pulse[1])]
+            elif want and c < len(self.pulse):
+                self.skipped += 1
+            ready = self.cmdrdy[c] if c < len(self.cmdrdy) else 1
+            yield port.cmd.ready.eq(ready)
+            yield port.wdata.ready.eq(int(pulse is not None and pulse[0]))
+            yield port.rdata.valid.eq(int(pulse is not None and not pulse[0]))
+            yield port.rdata.data.eq(pulse[3] if pulse is not None and not pulse[0] else 0x5a5a5a5a)
+            c += 1
+            yield
+
+
+class ScriptRun(AxiRun):
+    """replays one model behaviour (see script_from_behaviour) into the real bridge."""
+
+    def __init__(self, cfg, script, max_cycles=600, drain=30):
+        nb = cfg["dw"] // 8
+        full = (1 << nb) - 1
+        sz = log2(nb)
+        self.script = script
+        writes = [dict(id=k + 1, addr=cfg["base"], len=ln, size=sz, burst=INCR, data=[(k + 1) * 16 + i for i in range(ln + 1)],
+                       strb=[full] * (ln + 1), at=script["aw_at"].get(k, script["n"]),
+                       wat=[script["w_at"].get((k, i), script["n"]) for i in range(ln + 1)]) for k, ln in enumerate(script["wlen"])]
+        reads = [dict(id=k + 1, addr=cfg["base"], len=ln, size=sz, burst=INCR, at=script["ar_at"].get(k, script["n"]))
+                 for k, ln in enumerate(script["rlen"])]
+        AxiRun.__init__(self, cfg, dict(writes=writes, reads=reads), seed=0, bready=("script", script["bready"]),
+                        rready=("script", script["rready"]), max_cycles=max_cycles, drain=drain)
+        self.mem = ScriptMem(self.port, script["cmdrdy"], script["pulse"])
+
+    def aw_proc(self):
+        axi, c = self.axi, 0
+        for k, w in enumerate(self.prog["writes"]):
+            while c < w["at"]:
+                c += 1
+                yield
+            yield axi.aw.valid.eq(1); yield axi.aw.addr.eq(w["addr"]); yield axi.aw.burst.eq(w["burst"])
+            yield axi.aw.len.eq(w["len"]); yield axi.aw.size.eq(w["size"]); yield axi.aw.id.eq(w["id"])
+            self.aw_asserted = k + 1
+            c += 1
+            yield
+            while not (yield axi.aw.ready):
+                c += 1
+                yield
+            yield axi.aw.valid.eq(0)
+            self.aw_done = k + 1
+        while True:
+            yield
+
+    def w_proc(self):
+        axi, c = self.axi, 0
+        for k, w in enumerate(self.prog["writes"]):
+            for i, (d, s) in enumerate(zip(w["data"], w["strb"])):
+                while c < w["wat"][i]:
+                    c += 1
+                    yield
+                yield axi.w.valid.eq(1); yield axi.w.data.eq(d); yield axi.w.strb.eq(s); yield axi.w.last.eq(int(i == w["len"]))
+                c += 1
+                yield
+                while not (yield axi.w.ready):
+                    c += 1
+                    yield
+                yield axi.w.valid.eq(0)
+            self.w_done = k + 1
+        while True:
+            yield
+
+    def ar_proc(self):
+        axi, c = self.axi, 0
+        for k, r in enumerate(self.prog["reads"]):
+            while c < r["at"]:
+                c += 1
+                yield
+            yield axi.ar.valid.eq(1); yield axi.ar.addr.eq(r["addr"]); yield axi.ar.burst.eq(r["burst"])
+            yield axi.ar.len.eq(r["len"]); yield axi.ar.size.eq(r["size"]); yield axi.ar.id.eq(r["id"])
+            c += 1
+            yield
+            while not (yield axi.ar.ready):
+                c += 1
+                yield
+            yield axi.ar.valid.eq(0)
+            self.ar_done = k + 1
+        while True:
+            yield
+
+    def ready_proc(self, ch, gen):
+        bits, c = gen.spec[1], 0
+        while True:
+            yield ch.ready.eq(bits[c] if c < len(bits) else 1)
+            c += 1
+            yield
+
+    def lockstep(self):
+        """(equal, total): handshake cycles of the real code vs. the model, per channel, over the scripted cycles."""
+        real = dict(AW=[], W=[], AR=[], B=[], R=[])
+        for (c, cls, e) in self.events:
+            if e["c"] in real and c < self.script["n"] - 1:
+                real[e["c"]].append(c)
+        eq = sum(1 for k in real if real[k] == self.script["hs"][k])
+        return eq, len(real), real
